@@ -137,5 +137,8 @@ func checkC11(c *CheckCtx) error {
 	}
 	c.sample(map[string]any{"cell": cells[0].Cell, "contract_location": cells[0].Loc})
 	c.note("%d of %d cells executed in this tier", len(cells), total)
-	return c.runSeq(scs)
+	if err := c.runSeq(scs); err != nil {
+		return err
+	}
+	return c.repro(reproK8())
 }
